@@ -89,19 +89,43 @@ def main():
     ap.add_argument("--scratch", action="store_true")
     ap.add_argument("--tier", default="quick")
     ap.add_argument("--also", default="", help="comma list of further properties to run on every seed")
+    ap.add_argument("-j", type=int, default=1, help="run seeds of different properties in parallel (scratch mode only)")
     ap.add_argument("seeds", nargs="*")
     a = ap.parse_args()
     seeds = a.seeds or sorted(s for s in os.listdir(os.path.join(V, "seeded")) if os.path.exists(os.path.join(V, "seeded", s, "meta.json")))
     results = []
-    for s in seeds:
-        r = run_one(s, a.scratch, a.tier, [x for x in a.also.split(",") if x])
-        results.append(r)
+    extra = [x for x in a.also.split(",") if x]
+
+    def report(s, r):
         if "error" in r:
             print("%-28s ERROR %s" % (s, r["error"]))
-            continue
+            return
         for prop, c in r["checks"].items():
             print("%-28s %-4s %s  (%.0fs) %s" % (s, prop, "CAUGHT" if c["caught"] else "MISSED rc=%d" % c["rc"], c["wall_s"], " ".join(c["violation"])))
         sys.stdout.flush()
+
+    if a.j > 1 and a.scratch:
+        from concurrent.futures import ThreadPoolExecutor
+        groups = {}
+        for s in seeds:
+            prop = json.load(open(os.path.join(V, "seeded", s, "meta.json")))["property"]
+            groups.setdefault(prop, []).append(s)
+
+        def run_group(ss):
+            out = []
+            for s in ss:
+                r = run_one(s, True, a.tier, extra)
+                report(s, r)
+                out.append(r)
+            return out
+        with ThreadPoolExecutor(a.j) as ex:
+            for rs in ex.map(run_group, groups.values()):
+                results += rs
+    else:
+        for s in seeds:
+            r = run_one(s, a.scratch, a.tier, extra)
+            results.append(r)
+            report(s, r)
     out = os.path.join(V, "seeded", "RESULTS.json")
     old = {}
     if os.path.exists(out):
